@@ -47,6 +47,13 @@ type popIfaceEmb struct {
 	F *int64 `cbor:"6,keyasint,omitempty" json:"f,omitempty"`
 }
 
+// an embedded interface holding a struct by value: nothing in it can be populated in place
+type popValImpl struct {
+	B *string `cbor:"2,keyasint,omitempty" json:"b,omitempty"`
+}
+
+func (popValImpl) Marker() {}
+
 type decodeEntry struct {
 	name string
 	json bool
@@ -147,6 +154,10 @@ func decodeEntries() []decodeEntry {
 			d := &popIfaceEmb{}
 			return d, encoding.PopulateStructFromCBOR(extDM, in, d)
 		}},
+		{"PopulateStructFromCBOR(iface-holding-value)", false, func(in []byte) (any, error) {
+			d := &popIfaceEmb{PopIface: popValImpl{}}
+			return d, encoding.PopulateStructFromCBOR(extDM, in, d)
+		}},
 		{"ExtP2Claims.UnmarshalCBOR", false, func(in []byte) (any, error) {
 			c := ExtProfile{ExtP2Name, 2}.GetClaims()
 			err := c.(*ExtP2Claims).UnmarshalCBOR(in)
@@ -180,6 +191,10 @@ func decodeEntries() []decodeEntry {
 		{"PopulateStructFromJSON(embedded2)", true, func(in []byte) (any, error) { d := &popEmb2{}; return d, encoding.PopulateStructFromJSON(in, d) }},
 		{"PopulateStructFromJSON(iface-embedded)", true, func(in []byte) (any, error) {
 			d := &popIfaceEmb{PopIface: &popFlat{}}
+			return d, encoding.PopulateStructFromJSON(in, d)
+		}},
+		{"PopulateStructFromJSON(iface-holding-value)", true, func(in []byte) (any, error) {
+			d := &popIfaceEmb{PopIface: popValImpl{}}
 			return d, encoding.PopulateStructFromJSON(in, d)
 		}},
 		{"ExtP2Claims.UnmarshalJSON", true, func(in []byte) (any, error) {
